@@ -35,6 +35,12 @@ CHECKS = {
         text="Bounded model checking of the arithmetic behind every warning: docstring start line for every text of <=4 (5) characters and every int line number incl. the shift-by-k law; report() line/file selection for all small line values, sections and object kinds; msg() counting/printing for all ints; reportErrors/Field.report offsets and once-per-object; main()'s exit status for every (violations, parse errors, -W). The per-construct line numbers computed inside the epytext/docutils parsers are inputs here, not verified.",
         note="Trusted: CrossHair exhaustion verdict. Stubs: System.msg capture, Options.from_args/get_system/make in the exit-status harness under the invariant parse_errors non-empty => violations >= 1.",
     ),
+    "C14": dict(
+        level="model_checking", design="DESIGN.md §3 C14",
+        technique="CrossHair (z3): default-alignment kernel extracted from _handleFunctionDef's source on unbounded symbolic ints; solver-enumerated parameter layouts through the real builder and format_signature, re-parsed by CPython and compared with inspect.signature",
+        text="K14a proves (within CrossHair's path exhaustion, no int bound) that the nested get_default/default_offset arithmetic aligns defaults with the last parameters for all num_pos_args, n_defaults, index. K14b exhausts every layout of <=2+2 (3+3) positional, <=2 keyword-only parameters, *args/**kwargs, default masks, annotation placements incl. string annotations, 5 return forms, overload sets: the text of format_signature re-parses to the same ast.arguments (names, kinds, separators, defaults, unquoted annotations, no '-> None') and Signature kinds/defaults equal inspect.signature's.",
+        note="Trusted: CrossHair exhaustion verdict; CPython parser and inspect as oracle. K14b is bounded-exhaustive (class E): pydoctor runs concretely on each solver-chosen layout.",
+    ),
 }
 
 NOT_APPLICABLE = {
